@@ -13,9 +13,9 @@ import (
 // the universe (all payload sequences up to the depth bound, every field sweep).
 
 type c03Case struct {
-	Name string  `json:"name"`
-	M    ref.Msg `json:"m"`
-	Fits bool    `json:"fits"`
+	Name string   `json:"name"`
+	M    ref.Msg  `json:"m"`
+	Fits bool     `json:"fits"`
 	Then *ref.Msg `json:"then,omitempty"` // a second message encoded before the first one's bytes are decoded
 }
 
